@@ -9,7 +9,7 @@ CONSTANTS Certs,     \* certificate names; Key(c) and Sid(c) below
 VARIABLES img, signers, fresh, last
 vars == <<img, signers, fresh, last>>
 
-Key(c) == CASE c = "A" -> "k1" [] c = "B" -> "k2" [] c = "At" -> "k2" [] c = "A3" -> "k3072" [] c = "A4" -> "k4096" [] c = "Ca" -> "k3072" [] c = "S384" -> "k1" [] c = "S512" -> "k2" [] c \in {"L0", "L1", "L2", "L3", "L4", "L5", "L6", "L7"} -> "k1"
+Key(c) == CASE c = "A" -> "k1" [] c = "B" -> "k2" [] c = "At" -> "k2" [] c = "A3" -> "k3072" [] c = "A4" -> "k4096" [] c = "Ca" -> "k3072" [] c = "S384" -> "k1" [] c = "S512" -> "k2" [] c = "Kca" -> "k1" [] c = "Kenc" -> "k2" [] c = "Kself" -> "k3072" [] c \in {"L0", "L1", "L2", "L3", "L4", "L5", "L6", "L7"} -> "k1"
 Align8(n) == ((n + 7) \div 8) * 8
 
 Init == /\ img \in Images /\ signers = img.presigned /\ fresh = TRUE /\ last = [op |-> "init"]
@@ -24,7 +24,11 @@ Reparse == /\ fresh' = TRUE /\ last' = [op |-> "reparse", c |-> "-", res |-> "ok
 Signed(c) == \E i \in 1..Len(signers) : signers[i] = c      \* same certificate: issuer+serial and key
 Verify(c) == /\ last' = [op |-> "verify", c |-> c, res |-> IF Signed(c) THEN "true" ELSE "nottrue"]
              /\ UNCHANGED <<img, signers, fresh>>
-Next == (\E c \in Certs : Sign(c) \/ Verify(c) \/ SignFail(c)) \/ Reparse
+(* asking for the image digest under some hash algorithm is a query: it reports the digest of the specification's ranges under that *)
+(* algorithm and leaves the object - and every later verdict - as it was                                                           *)
+HashAlgs == {"sha1", "sha256", "sha512"}
+HashQuery(a) == /\ last' = [op |-> "hash", c |-> a, res |-> "equal"] /\ UNCHANGED <<img, signers, fresh>>
+Next == (\E c \in Certs : Sign(c) \/ Verify(c) \/ SignFail(c)) \/ Reparse \/ (\E a \in HashAlgs : HashQuery(a))
 Spec == Init /\ [][Next]_vars
 
 (* ---- file-level well-formedness of the serialised image, as a function of the abstract state ---- *)
